@@ -43,6 +43,8 @@ def check(ctx):
     check_bigcells(ctx, "C02", np.random.default_rng(ctx.seed + 2002))   # supercells of 36-216 atoms
     from o1 import check_o1
     check_o1(ctx, "C02", np.random.default_rng(ctx.seed + 1001))   # the exported first-order basis
+    from basisobj import check_handover_then_compute
+    check_handover_then_compute(ctx, "C02", np.random.default_rng(ctx.seed + 81))
     ctx.rule = ("cells: triclinic P1/P-1, monoclinic P/C, orthorhombic C, hexagonal, rhombohedral, cubic primitive/centred, n_lp in {1,2,4}, shuffled atoms; operations: spglib, "
                 "explicit full group in shuffled order (identity first, and with a rotation first), proper subgroup; every operation applied to expanded basis vectors (all, up to a cap) and to fits. Non-trivial: group order >= 2")
     cells = [("mono_P", (1, 1, 1)), ("tri2_Pm1", (1, 1, 1)), ("hcp", (1, 1, 1)), ("bcc_conv", (1, 1, 1)), ("ortho_C", (1, 1, 1)), ("tri1", (2, 2, 1)), ("rhombo2", (1, 1, 1)), ("nacl_prim", (1, 1, 1)), ("mono_C", (1, 1, 1)),
